@@ -117,5 +117,28 @@ let eval_readloop case impl =
     (* a handler error (no response, close) also shows as CLOSED at the lock-step point *)
     let cls_ok = icls = cls || (cls = "closed" && icls = "incomplete") || cls = "unspecified" in
     let m = cls ^ " same" in
-    ((if same && cls_ok then impl else m), (if same && cls_ok then [] else [("C03", "-")]))
+    (* C02 at connection level: a head the sequential spec answers (accepted, not 400 / 431) must be answered under every segmentation *)
+    let cls_of t = if starts "CLOSED" t then "incomplete" else if starts "400," t || starts "431," t then "rejected"
+      else if starts "TIMEOUT" t then "timeout" else "answered" in
+    let c02_bad = cls = "answered" && List.exists (fun t -> cls_of t <> "answered") ts in
+    ((if same && cls_ok then impl else m), (if same && cls_ok then [] else [("C03", "-")]) @ (if c02_bad then [("C02", "-")] else []))
   | _ -> failwith "bad readloop case"
+
+
+(* segpair stream (C03): the same lock-step exchange under several segmentations of the first request *)
+let eval_segpair case impl =
+  let scripts = split_on '#' case and ts = split_on '#' impl in
+  let canon t =
+    match String.index_opt t '|' with
+    | None -> t
+    | Some i ->
+      let entries = List.filter (fun e -> e <> "TIMEOUT" && e <> "CLOSED" && e <> "") (split_on ';' (String.sub t 0 i)) in
+      String.concat ";" entries ^ String.sub t i (String.length t - i) in
+  let models = List.map (fun sc ->
+      let (maxh, segs, nr, closed) = parse_script sc in
+      let r = M.serve_conn the_app (nat_of_int maxh) segs in
+      transcript r.M.c_resps nr (not r.M.c_waiting) r.M.c_waiting closed r.M.c_ok) scripts in
+  let cts = List.map canon ts in
+  let same = (match cts with a :: rest -> List.for_all (fun t -> t = a) rest | [] -> false) in
+  let model_same = List.length models = List.length ts && List.for_all2 (fun m t -> canon m = canon t) models ts in
+  ((if model_same then impl else String.concat "#" models), if same then [] else [("C03", "-")])
